@@ -307,6 +307,11 @@ def maybe_defval(g, mod, d):
         if r < 0.5:
             n = rng.randint(slo, max(slo, shi))
             s_ = ''.join(rng.choice('abcdefghij klmnop') for _ in range(n))
+            if 'defval_hostile_string' in f and n >= 2 and rng.random() < 0.4:
+                # line breaks, backslashes and apostrophes are legal inside a quoted default
+                k = rng.randrange(1, n)
+                piece = rng.choice(['\n', '\r\n', '\r', '\\', "'", '\\n', '\t'])
+                s_ = (s_[:k] + piece + s_[k:])[:max(n, len(piece) + 1)] if len(piece) < n else s_
             if s_ == '' and 'defval_empty_string' not in f:
                 if shi < 1:
                     return
